@@ -8,7 +8,9 @@ Meant to be merged into tools/props/c14.py the way c07.py merges c07gs.py:
     LEAN_MODULES += dyn.LEAN_MODULES; THEOREMS += dyn.THEOREMS; CXX_TARGETS += dyn.CXX_TARGETS.
 
 The model driver runs the REPAIRED `remove_all_entries` loop (fixes/c14_map_stop.patch) unless
-HGV_C14DYN_VARIANT=current is set (the loop without the first-exception recorder)."""
+HGV_C14DYN_VARIANT=current is set (the loop without the first-exception recorder).  Kind `reducez` (reduce_ with an explicit
+zero) runs against the pointer-table model of `rebuild_structure` (Model/DynLifeReduceZ.lean, Props/C14DynZ.lean);
+HGV_C14DYN_VARIANT=rz runs the zero-less `reduce` kind against that model as well (a cross-check of the two reduce models)."""
 import os
 import re
 from vlib import Case, Stream, BUILD, VERIF, model_cmd
@@ -83,7 +85,7 @@ VARIANT = os.environ.get("HGV_C14DYN_VARIANT", "fixed")
 
 
 def _model():
-    return model_cmd("C14Dyn") + ([VARIANT] if VARIANT == "current" else [])
+    return model_cmd("C14Dyn") + ([VARIANT] if VARIANT in ("current", "rz") else [])
 
 
 # ----------------------------------------------------------------------------- generator
@@ -354,12 +356,14 @@ def reducez_history(rng):
             cycles.append([])
         elif r < 0.22 and present:
             cycles.append(["+%d" % x for x in rng.sample(present, min(n, rng.randint(1, 2)))])      # value ticks
+        elif n <= 2 and not small and r > 0.86:
+            cycles.append(add(rng.choice([2, 3]) if n else rng.choice([3, 4])))     # a jump: two or more combiners created at once
         elif n == 1:
-            cycles.append(add(1) if r < 0.80 or small else rem(1) if r < 0.88 else add(2))
+            cycles.append(add(1) if r < 0.76 or small else rem(1) if r < 0.82 else add(2))
         elif n == 2:
-            cycles.append(rem(1) if r < 0.72 else add(1) if (r < 0.85 and not small) else rem(2))
+            cycles.append(rem(1) if r < 0.70 else add(1) if (r < 0.80 and not small) else rem(2))
         elif n == 0:
-            cycles.append(add(rng.choice([1, 1, 2])))
+            cycles.append(add(rng.choice([1, 1, 2, 3])))
         else:
             cycles.append(rem(n - rng.choice([1, 2])) if r < 0.8 else add(1))
         if rng.random() < 0.15 and present and cycles[-1] and cycles[-1][0][0] == "-":
@@ -380,9 +384,17 @@ def reducez_case(rng, i):
         ords.append(list(range(nxt + 1, nxt + k + 1)))
         nxt += k
     mixed = [c for c, rec in enumerate(sim) if rec and rec["created"] and rec["retired"] and not rec["grew"]]
+    multi = [c for c, rec in enumerate(sim) if rec and len(rec["created"]) >= 2 and not rec["grew"]]
     faults = []
     r = rng.random()
-    if mixed and r < 0.45:
+    if multi and rng.random() < 0.6:
+        # a LATER combiner of a same-capacity rebuild that creates several fails to start: the ones started before it must be reset
+        c = rng.choice(multi)
+        o = rng.choice(ords[c][1:])
+        faults.append("fs %d" % ((o - 1) * n + rng.randint(1, n)))
+        if rng.random() < 0.3:
+            faults.append("fx %d %d" % (rng.choice(ords[c]), rng.randrange(n)))
+    elif mixed and r < 0.45:
         # the combiner created by a rebuild that also sets one aside fails to start (any of its probes)
         c = rng.choice(mixed)
         o = rng.choice(ords[c])
@@ -441,6 +453,14 @@ def reducez_directed(add, n, cl):
     add("reducez", n, cl, [], [[], [], ["+1", "+2", "+3"], ["-1", "-2", "-3"], ["+4"], ["+5"], ["-4"]])
     # a removal together with an addition (the live count stays at 1 / 2, the leaves move)
     add("reducez", n, cl, ["fx 2 0"], [["+1", "+2", "+3"], ["-3", "-2", "+4"], ["-1"], ["+5"]])
+    # same-capacity rebuilds that create SEVERAL combiners, a later one fails to start (the earlier ones are reset by the guard)
+    add("reducez", n, cl, ["fs %d" % (3 * n + 1)], [["+1", "+2", "+3"], ["-1", "-2", "-3"], ["+4", "+5", "+6"]])
+    add("reducez", n, cl, ["fs %d" % (4 * n)], [["+1", "+2", "+3"], ["-1", "-2", "-3"], ["+4", "+5", "+6"]])
+    add("reducez", n, cl, ["fs %d" % (4 * n + 1)], [["+1", "+2", "+3"], ["-3"], ["+4", "+5"], ["+1"]])       # 2 -> 4: positions 0 and 2
+    add("reducez", n, cl, ["fs %d" % (3 * n + 1), "fx 3 0"], [["+1", "+2", "+3"], ["-1", "-2", "-3"], ["+4", "+5", "+6", "+7"]])
+    add("reduce", n, cl, ["fs %d" % (3 * n + 1)], [["+1", "+2", "+3"], ["-2", "-3"], ["+4", "+5", "+6"]])    # 1 -> 4 without a zero
+    add("reduce", n, cl, ["fs %d" % (4 * n + 1)], [["+1", "+2", "+3"], ["-2", "-3"], ["+4", "+5", "+6"]])
+    add("reduce", n, cl, ["fs %d" % (3 * n + 1)], [["+1", "+2", "+3"], ["-3"], ["+4", "+5"]])                # 2 -> 4
 
 
 def gen_case(rng, i):
@@ -453,6 +473,17 @@ def gen_case(rng, i):
     nf = rng.choice([0, 1, 1, 1, 2, 2, 3])
     if kind == "reduce":
         cycles, ncomb = reduce_history(rng)
+        sim = rz_sim(cycles, zero=False)
+        multi = [c for c, rec in enumerate(sim) if rec and len(rec["created"]) >= 2 and not rec["grew"]]
+        if multi and rng.random() < 0.5:
+            # same-capacity rebuild that creates several combiners: a later one fails to start
+            c = rng.choice(multi)
+            before = sum(len(rec["created"]) for rec in sim[:c] if rec)
+            o = before + rng.randint(2, len(sim[c]["created"]))
+            faults = ["fs %d" % ((o - 1) * n + rng.randint(1, n))]
+            if rng.random() < 0.3:
+                faults.append("fx %d %d" % (rng.randint(before + 1, o), rng.randrange(n)))
+            return mk(i, kind, n, cleanup, faults, cycles)
         shape = rng.choice(["stop-only", "stop-only", "eval-stop", "any", "any", "any"])
         return mk(i, kind, n, cleanup, gen_reduce_faults(rng, n, ncomb, nf, shape) if (nf or shape != "any") else [], cycles)
     cycles, used, created = map_history(rng) if kind == "map" else switch_history(rng)
@@ -591,6 +622,27 @@ def exhaustive(base):
                 for f in singles[::3]:
                     for g in stops[::2]:
                         out.append(mk(i, "reduce", n, cl, [f, g], hcycles)); i += 1
+    # reduce_ with a zero: every single fault point (and pairs with one stop fault) of the 1 <-> 2 histories in a capacity-4
+    # tree and of a rebuild that creates several combiners
+    zhists = [
+        [["+1", "+2", "+3"], ["-2", "-3"], ["+4"], ["+1"]],
+        [["+1", "+2", "+3"], ["-3"], ["-2"], ["+1"]],
+        [["+1", "+2", "+3"], ["-2", "-3"], ["+4"], ["-4"], ["+5"], ["-1"]],
+        [["+1", "+2", "+3"], ["-1", "-2", "-3"], ["+4", "+5", "+6"], ["-4"]],
+        [[], ["+1"], ["+2"], ["+3", "+4"], ["-1", "-2"], ["-3"]],
+    ]
+    for hcycles in zhists:
+        ncomb = 6
+        for n in (1, 2):
+            singles = ["fs %d" % k for k in range(1, ncomb * n + 1)]
+            singles += ["fe %d %d %d" % (o, p, m) for o in range(1, ncomb + 1) for p in range(n) for m in (1, 2)]
+            stops = ["fx %d %d" % (o, p) for o in range(1, ncomb + 1) for p in range(n)]
+            for cl in (True, False):
+                for f in singles + stops:
+                    out.append(mk(i, "reducez", n, cl, [f], hcycles)); i += 1
+                for f in singles[::2]:
+                    for g in stops:
+                        out.append(mk(i, "reducez", n, cl, [f, g], hcycles)); i += 1
     return out
 
 
@@ -826,6 +878,14 @@ def features(stream, case, out):
                 if any(ph == "stop" and t.startswith("px!") for (ph, t, _) in p["seq"]):
                     f.append("dyn:reduce-stop-fault-after-growth")
                 break
+    if p["kind"].startswith("reduce"):
+        cyc_ops = [l.split()[1:] for l in case.lines if l == "c" or l.startswith("c ")]
+        for k, rec in enumerate(rz_sim(cyc_ops, zero=p["kind"] == "reducez")):
+            if rec and k not in p["dead"] and len(rec["created"]) >= 2 and not rec["grew"]:
+                cyc = [t for (ph, t, _) in p["seq"] if ph == k]
+                fail = next((j for j, t in enumerate(cyc) if t.startswith("G!")), None)
+                if fail is not None and any(t.startswith("G>") for t in cyc[:fail]):
+                    f.append("dyn:%s-later-created-start-fault-same-capacity" % p["kind"])
     if p["kind"] == "reducez":
         cycles = [l.split()[1:] for l in case.lines if l == "c" or l.startswith("c ")]
         sim = rz_sim(cycles)
